@@ -135,11 +135,12 @@ object otherwise the results are not totally reliable upon return
         std::lock_guard<std::mutex> lock(mapLock);
         for (auto obj = objectMap.begin(); obj != objectMap.end(); ++obj) {
             if (operand(obj->second)) {
-                objectMap.erase(obj);
+                // the key lives in the node: drop the tags before erasing it
                 auto fnd2 = typeMap.find(obj->first);
                 if (fnd2 != typeMap.end()) {
                     typeMap.erase(fnd2);
                 }
+                objectMap.erase(obj);
                 return true;
             }
         }
